@@ -62,7 +62,7 @@ func HandleAPIError(w http.ResponseWriter, r *http.Request, code int, err error)
 
 func (s *Server) upgradeConfigVersion(w http.ResponseWriter, r *http.Request)
   requires apiLocked && w != nil
-  modifies ver, versionHeader
+  modifies ver, versionHeader, allof("map<string,[]string>#dom"), allof("map<string,[]string>#card"), allof("map<string,[]string>#val#arr"), allof("map<string,[]string>#val#len"), allof("map<string,[]string>#val#cap"), allof("elem<string>")
   ensures ver == old(ver) + 1 && versionHeader == ver
   ghost at call[1] _plusOneVersion: versionHeader := v
 
@@ -73,7 +73,7 @@ ghost var gReadFailed bool
 
 func (s *Server) createObject(w http.ResponseWriter, r *http.Request)
   requires s != nil && w != nil && r != nil && r.URL != nil && !apiLocked
-  modifies objs, objKind, ver, versionHeader, apiLocked, wroteStatus, gName, gSpec, gKind, gReadFailed
+  modifies objs, objKind, ver, versionHeader, apiLocked, wroteStatus, gName, gSpec, gKind, gReadFailed, allof("map<string,[]string>#dom"), allof("map<string,[]string>#card"), allof("map<string,[]string>#val#arr"), allof("map<string,[]string>#val#len"), allof("map<string,[]string>#val#cap"), allof("elem<string>")
   ensures mutex-released: !apiLocked
   ensures bad-body-changes-nothing: gReadFailed ==> objs == old(objs) && ver == old(ver) && wroteStatus == 400
   ensures existing-name-is-409-and-changes-nothing: let g = gName in (let sp = gSpec in (!gReadFailed && old(objs[g]) != 0 ==> wroteStatus == 409 && objs == old(objs) && ver == old(ver)))
@@ -84,7 +84,7 @@ func (s *Server) createObject(w http.ResponseWriter, r *http.Request)
 
 func (s *Server) updateObject(w http.ResponseWriter, r *http.Request)
   requires s != nil && w != nil && r != nil && !apiLocked
-  modifies objs, objKind, ver, versionHeader, apiLocked, wroteStatus, gName, gSpec, gKind, gReadFailed
+  modifies objs, objKind, ver, versionHeader, apiLocked, wroteStatus, gName, gSpec, gKind, gReadFailed, allof("map<string,[]string>#dom"), allof("map<string,[]string>#card"), allof("map<string,[]string>#val#arr"), allof("map<string,[]string>#val#len"), allof("map<string,[]string>#val#cap"), allof("elem<string>")
   ensures mutex-released: !apiLocked
   ensures bad-body-changes-nothing: gReadFailed ==> objs == old(objs) && ver == old(ver) && wroteStatus == 400
   ensures missing-name-is-404-and-changes-nothing: let g = gName in (let sp = gSpec in (!gReadFailed && old(objs[g]) == 0 ==> wroteStatus == 404 && objs == old(objs) && ver == old(ver)))
